@@ -1613,6 +1613,17 @@ static void gen_mutations(CorpusFile const &f, KindSets const &K, bool th, std::
       d.text = T.substr(0, n.val_b) + T.substr(n.val_e);
       M.push_back(d);
     }
+    if (n.kind == 1 && lk == "atomnumbersrange" && n.vals.size() == 1) {
+      // "first-last": text for either number, a missing dash, text after the last number
+      static const char *bad[] = {"x-y", "5", "3-4abc", "3-y"};
+      static const char *shp[] = {"range/both-text", "range/no-dash", "range/trailing-text", "range/last-text"};
+      for (int bi = 0; bi < 4; bi++) {
+        Mut a;
+        a.cls = bi == 2 ? "number-with-trailing-text" : "text-for-number"; a.shape = shp[bi]; a.ctx = kind; a.key = lk;
+        a.text = T.substr(0, n.val_b) + bad[bi] + T.substr(n.val_e);
+        M.push_back(a);
+      }
+    }
     if (n.kind == 1 || n.kind == 3) {
       bool allnum = !n.vals.empty();
       for (auto &v : n.vals) if (!is_numberish(v)) allnum = false;
